@@ -1,5 +1,6 @@
 import gzip
 import zlib
+import codecs
 
 from io import StringIO, BytesIO, TextIOWrapper
 from queue import Queue
@@ -191,9 +192,12 @@ class HttpSource(Source[Union[str,Iterable[str]]]):
                 return decomp(b.read()).decode(charset)
         else:
             def chunks(decomp,charset,size,bites):
+                #a multi-byte character can be split across two chunks so we decode incrementally
+                decoder = codecs.getincrementaldecoder(charset)()
                 with bites as b:
                     while chunk := b.read(size):
-                        yield decomp(chunk).decode(charset)
+                        yield decoder.decode(decomp(chunk))
+                    yield decoder.decode(b'',final=True)
 
             return DelimSource(IterableSource(chunks(decomp,charset,chunk,bites))).read()
 
